@@ -17,12 +17,20 @@ package main
 //   - no node is presented before (one of) its parent(s) (else order:<Type>@<Parent.Field>)
 //   - with a callback that fails at its k-th call, Walk returns that very error
 //     and the callback is never invoked again           (else abort-*:...)
-// Nodes presented in addition to the reflected set (the CallExpr Walk fabricates
-// for an anonymous call) are allowed: the statement does not forbid them.
+//   - Walk does not panic                               (else walk-panic:<site>)
+//   - what the callback is handed is a node: a nil interface, a typed nil pointer
+//     (a nil *ast.StmtsStmt stored in an ast.Stmt field passes every `== nil`
+//     interface test) or a value that is no statement/expression/operator node
+//     at all is not "a node of that tree"              (else presented-nil:<Type> /
+//                                                       presented-non-node:<Type>)
+// Well-formed nodes presented in addition to the reflected set (the CallExpr Walk
+// fabricates for an anonymous call) are allowed: the statement does not forbid them.
 //
 // Workload: a fixed, deterministic matrix (every expression kind in every
 // expression hole of every statement/expression template, every statement kind
-// in every block of every block-holding template), the repository's own script
+// in every block of every block-holding template, every degenerate block content
+// — empty statements only, newlines only, comments only, empty statements around
+// real ones — in every block hole and at top level), the repository's own script
 // corpus, and PRNG-driven nested programs built from the same templates.
 
 import (
@@ -148,6 +156,24 @@ var c17StmtTpls = c17Cat(
 )
 
 var c17Atoms = []string{"a", "b", "c", "d", "e", "g"}
+
+// degenerate block contents: a compstmt that holds no statement at all although
+// it is not the empty string (empty statements, newlines, comments), and empty
+// statements before / between / after real ones. Every one of them is used for
+// every block hole of every block-holding template and as a top-level program
+// (those the grammar rejects are counted as excluded, like any other source).
+var c17DegenerateOnly = []string{
+	";", ";;", "; ;", ";;;", "; ; ; ; ; ;", ";\n;", ";\n\n;\n", "\n;\n;\n", "\n;;\n", ";\n;\n;\n;\n;\n;\n;\n;",
+	"\n", "\n\n\n", " ", "\t\n \n",
+	"# only a comment\n", "\n// only a comment\n", "/* only a comment */", "/* c */ ; /* d */ ; /* e */", "\n# c\n;\n// d\n;\n", "; # c\n; // d\n",
+}
+
+var c17DegenerateMixed = []string{
+	";z", "z;", ";;z", "z;;", "; ; z", "z ; ;", ";\n;\nz", "z\n;\n;", "\n;\nz\n;\n", "z;;y", ";;z;;y;;", "z;\n;\n;y", "z # c\n;; y", ";\n\n;z\n\n;\n\n;\ny;",
+	"# c\nz", "z // c\n", "/* c */ z /* d */", "z\n# c\n# d\ny",
+}
+
+var c17Degenerate = append(append([]string{}, c17DegenerateOnly...), c17DegenerateMixed...)
 
 // c17Fill substitutes the holes of a template in one pass.
 func c17Fill(t c17Tpl, exprs, blocks []string) string {
@@ -303,6 +329,72 @@ func c17FixedList() []string {
 				}
 			}
 		}
+		// degenerate block contents: as the whole program, before/after a real top-level
+		// statement, in every block hole of every block-holding template (one hole at a
+		// time, the others holding a real statement; and all holes at once)
+		for _, d := range c17Degenerate {
+			add(d)
+			add(d + "\nr = 1")
+			add("r = 1\n" + d)
+			add("r = 1\n" + d + "\nq = 2")
+		}
+		for pi, p := range parents {
+			if p.nb == 0 {
+				continue
+			}
+			for _, d := range c17Degenerate {
+				for h := 0; h < p.nb; h++ {
+					e, b := c17Defaults(p, "z")
+					b[h] = d
+					s := c17Fill(p, e, b)
+					add(s)
+					add("r = 1\n" + s + "\nq = 2")
+				}
+				e, b := c17Defaults(p, d)
+				s := c17Fill(p, e, b)
+				add(s)
+				if pi >= len(c17StmtTpls) { // an expression template
+					add("r = " + s)
+				}
+			}
+		}
+		// a block-holding construct whose blocks are degenerate, inside every block of
+		// every block-holding template (the kind of degenerate content rotates)
+		rot := 0
+		for _, p := range parents {
+			for h := 0; h < p.nb; h++ {
+				for _, k := range parents {
+					if k.nb == 0 {
+						continue
+					}
+					d := c17Degenerate[rot%len(c17Degenerate)]
+					rot++
+					ke, kb := c17Defaults(k, d)
+					child := c17Fill(k, ke, kb)
+					e, b := c17Defaults(p, "z")
+					b[h] = child
+					add(c17Fill(p, e, b))
+					b[h] = ";" + child + ";;"
+					add(c17Fill(p, e, b))
+				}
+			}
+		}
+		// a function literal whose body is degenerate, in every expression hole
+		for _, p := range parents {
+			for h := 0; h < p.ne; h++ {
+				for _, k := range c17ExprTpls {
+					if k.nb == 0 {
+						continue
+					}
+					d := c17DegenerateOnly[rot%len(c17DegenerateOnly)]
+					rot++
+					ke, kb := c17Defaults(k, d)
+					e, b := c17Defaults(p, "z")
+					e[h] = c17Fill(k, ke, kb)
+					add(c17Fill(p, e, b))
+				}
+			}
+		}
 	})
 	return c17Fixed
 }
@@ -385,16 +477,34 @@ func (g *c17Gen) stmt(d int) string {
 	return c17Fill(t, es, bs)
 }
 
+// empties: a run of empty statements / blank lines / comments (never a real statement)
+func (g *c17Gen) empties() string {
+	if g.r.Intn(3) == 0 {
+		return c17DegenerateOnly[g.r.Intn(len(c17DegenerateOnly))]
+	}
+	var b strings.Builder
+	for n := 1 + g.r.Intn(4); n > 0; n-- {
+		b.WriteString([]string{";", ";", "; ", ";\n", "\n", "\n;", " # c\n", " /* c */ "}[g.r.Intn(8)])
+	}
+	return b.String()
+}
+
 func (g *c17Gen) block(d int) string {
 	if d <= 0 || g.budget <= 0 {
-		if g.r.Intn(2) == 0 {
+		switch g.r.Intn(5) {
+		case 0, 1:
 			return ""
+		case 2:
+			return g.empties()
 		}
 		return g.atom()
 	}
 	n := g.r.Intn(4)
 	if g.r.Intn(8) == 0 {
 		n = 4 + g.r.Intn(5)
+	}
+	if n == 0 && g.r.Intn(2) == 0 {
+		return g.empties()
 	}
 	var parts []string
 	for i := 0; i < n; i++ {
@@ -404,11 +514,36 @@ func (g *c17Gen) block(d int) string {
 	if g.r.Intn(4) == 0 {
 		sep = "; "
 	}
-	s := strings.Join(parts, sep)
+	s := g.join(parts, sep)
 	if g.r.Intn(3) == 0 {
 		s = "\n" + s + "\n"
 	}
 	return s
+}
+
+// join separates the statements by sep; in one list of six it also puts empty
+// statements before, between and after them.
+func (g *c17Gen) join(parts []string, sep string) string {
+	if g.r.Intn(6) > 0 {
+		return strings.Join(parts, sep)
+	}
+	var b strings.Builder
+	if g.r.Intn(2) == 0 {
+		b.WriteString(g.empties())
+	}
+	for i, p := range parts {
+		if i > 0 {
+			b.WriteString(sep)
+			if g.r.Intn(3) == 0 {
+				b.WriteString(g.empties() + ";")
+			}
+		}
+		b.WriteString(p)
+	}
+	if g.r.Intn(2) == 0 {
+		b.WriteString(";" + g.empties())
+	}
+	return b.String()
 }
 
 // subset draws a random non-empty subset of kinds ("swarm" generation: a program
@@ -442,7 +577,7 @@ func (g *c17Gen) program() string {
 	for i := 0; i < n; i++ {
 		parts = append(parts, g.stmt(depth))
 	}
-	return strings.Join(parts, "\n")
+	return g.join(parts, "\n")
 }
 
 // ---------------------------------------------------------------------------
@@ -457,6 +592,108 @@ func c17TypeName(x interface{}) string {
 
 func c17Comparable(x interface{}) bool {
 	return x != nil && reflect.TypeOf(x).Comparable()
+}
+
+// c17NotANode classifies a value handed to the callback that cannot be a node of
+// any tree: "nil" for a nil interface or a typed nil pointer, "non-node" for a
+// value that is not a pointer to a statement/expression/operator struct of
+// package ast; "" for a well-formed node (of this tree or fabricated by Walk).
+func c17NotANode(x interface{}) string {
+	if x == nil {
+		return "nil"
+	}
+	v := reflect.ValueOf(x)
+	switch v.Kind() {
+	case reflect.Ptr, reflect.Map, reflect.Slice, reflect.Func, reflect.Chan, reflect.Interface:
+		if v.IsNil() {
+			return "nil"
+		}
+	}
+	if !c17IsChildType(v.Type()) || v.Kind() != reflect.Ptr {
+		return "non-node"
+	}
+	return ""
+}
+
+// c17NilHolders lists the fields below root that hold a typed nil pointer inside
+// a non-nil interface value ("<ParentType>.<Field>(<*Type>)"): such a field passes
+// every `== nil` test although it holds no node. Own reflection, guarded against
+// nil pointers at every level (astx.Nodes neither counts them nor descends).
+func c17NilHolders(root interface{}) []string {
+	var out []string
+	seen := map[string]bool{}
+	var walk func(v reflect.Value, slot string, depth int)
+	walk = func(v reflect.Value, slot string, depth int) {
+		if !v.IsValid() || depth > 100000 {
+			return
+		}
+		switch v.Kind() {
+		case reflect.Interface:
+			if v.IsNil() {
+				return
+			}
+			el := v.Elem()
+			switch el.Kind() {
+			case reflect.Ptr, reflect.Map, reflect.Slice, reflect.Func, reflect.Chan:
+				if el.IsNil() {
+					s := slot + "(" + el.Type().String() + ")"
+					if !seen[s] {
+						seen[s] = true
+						out = append(out, s)
+					}
+					return
+				}
+			}
+			walk(el, slot, depth+1)
+		case reflect.Ptr:
+			if v.IsNil() {
+				return
+			}
+			el := v.Elem()
+			if el.Kind() != reflect.Struct || el.Type().PkgPath() != c17AstPkg {
+				return
+			}
+			t := el.Type()
+			for i := 0; i < el.NumField(); i++ {
+				if t.Field(i).Anonymous || t.Field(i).Type.Kind() == reflect.Struct {
+					continue
+				}
+				walk(el.Field(i), t.Name()+"."+t.Field(i).Name, depth+1)
+			}
+		case reflect.Slice:
+			for i := 0; i < v.Len(); i++ {
+				walk(v.Index(i), slot, depth+1)
+			}
+		}
+	}
+	walk(reflect.ValueOf(&root).Elem(), "root", 0)
+	sort.Strings(out)
+	return out
+}
+
+// c17JudgePresented reports every value of seq that is not a node (see c17NotANode).
+func c17JudgePresented(c *wk.Case, src string, root ast.Stmt, seq []interface{}, how string) {
+	reported := map[string]bool{}
+	for i, x := range seq {
+		why := c17NotANode(x)
+		if why == "" {
+			continue
+		}
+		sig := "presented-" + why + ":" + c17TypeName(x)
+		if reported[sig] {
+			continue
+		}
+		reported[sig] = true
+		prev := "nothing"
+		if i > 0 {
+			prev = "the " + c17TypeName(seq[i-1])
+		}
+		detail := fmt.Sprintf("call %d of the callback (%s) was handed a %s value of type %T, which is no node of the tree (presented after %s)", i+1, how, why, x, prev)
+		if why == "nil" {
+			detail += fmt.Sprintf("; fields of the tree holding a typed nil pointer in a non-nil interface: %v", c17NilHolders(root))
+		}
+		c17Viol(c, sig, detail, src)
+	}
 }
 
 type c17Rec struct {
@@ -558,8 +795,37 @@ func c17Check(c *wk.Case, src string, root ast.Stmt, whole bool, origin string) 
 	} else {
 		c.Count("statements_rechecked_alone", 1)
 	}
+	// whatever Walk goes on to do (return, fail, panic): what it handed out must be nodes
+	c17JudgePresented(c, src, root, rec.seq, "callback never fails")
+	recheckAlone := func() {
+		// every statement of every statement list, at any depth, on its own
+		for _, n := range nodes {
+			if n.Slot != "StmtsStmt.Stmts" {
+				continue
+			}
+			if st, ok := n.Node.(ast.Stmt); ok {
+				c17Check(c, src, st, false, origin+"-stmt")
+			}
+		}
+	}
 	if o.panicked {
-		c17Viol(c, "walk-panic:"+o.psig, "astutil.Walk panicked: "+o.pval, src)
+		last := "<nothing presented>"
+		if len(rec.seq) > 0 {
+			last = c17TypeName(rec.seq[len(rec.seq)-1])
+		}
+		c.Tag("walk:panic:" + origin)
+		inTree := 0
+		for x := range rec.first {
+			if _, ok := parents[x]; ok {
+				inTree++
+			}
+		}
+		c17Viol(c, "walk-panic:"+o.psig, fmt.Sprintf("astutil.Walk panicked: %s (last value presented: %s, %d of %d nodes presented; typed nil pointers held in interface fields: %v)",
+			o.pval, last, inTree, len(parents), c17NilHolders(root)), src)
+		if whole {
+			// the panic left the rest of the tree unvisited: judge the other statements alone
+			recheckAlone()
+		}
 		return
 	}
 	total := rec.calls
@@ -574,15 +840,7 @@ func c17Check(c *wk.Case, src string, root ast.Stmt, whole bool, origin string) 
 		c17Viol(c, "walk-error:"+last,
 			fmt.Sprintf("Walk returned %q although the callback never failed (last node presented: %s, %d of %d nodes presented)", o.err.Error(), last, len(rec.first), len(parents)), src)
 		if whole {
-			// every statement of every statement list, at any depth, on its own
-			for _, n := range nodes {
-				if n.Slot != "StmtsStmt.Stmts" {
-					continue
-				}
-				if st, ok := n.Node.(ast.Stmt); ok {
-					c17Check(c, src, st, false, origin+"-stmt")
-				}
-			}
+			recheckAlone()
 		}
 	} else {
 		c.Tag("walk:nil:" + origin)
@@ -870,12 +1128,25 @@ func c17Program(c *wk.Case, src, origin string) bool {
 		c.Excluded(origin + "-does-not-parse")
 		return false
 	}
-	if tree == nil {
-		// the empty program: nothing to present; still must return nil
-		o := c17Walk(tree, func(interface{}) error { return nil })
+	if rv := reflect.ValueOf(tree); tree == nil || rv.Kind() == reflect.Ptr && rv.IsNil() {
+		// the empty program (no statement at all, or empty statements only): there is
+		// nothing to present; Walk still must return nil, and must not panic. A root that
+		// is a typed nil pointer (non-nil interface) holds no node either.
+		rec := &c17Rec{record: true, first: map[interface{}]int{}}
+		c.Begin(map[string]interface{}{"src": src, "op": "walk-empty"})
+		o := c17Walk(tree, rec.cb)
+		c.Events(rec.calls)
 		c.Eval(src, false)
-		if o.panicked || o.err != nil {
-			c17Viol(c, "walk-error:<empty program>", fmt.Sprintf("Walk of the empty program: err=%v panic=%v", o.err, o.pval), src)
+		c.Tag("programs:empty:" + origin)
+		if tree != nil {
+			c.Tag("programs:typed-nil-root")
+		}
+		c17JudgePresented(c, src, tree, rec.seq, "empty program")
+		switch {
+		case o.panicked:
+			c17Viol(c, "walk-panic:"+o.psig, fmt.Sprintf("astutil.Walk of the empty program (root %T) panicked: %s", tree, o.pval), src)
+		case o.err != nil:
+			c17Viol(c, "walk-error:<empty program>", fmt.Sprintf("Walk of the empty program (root %T): err=%v", tree, o.err), src)
 		}
 		return true
 	}
@@ -1041,15 +1312,22 @@ func init() {
 			return fw.Plan{
 				Level: "exploration",
 				Rule: "phase matrix (deterministic): every expression template (one per grammar production) placed in every expression hole of every statement/expression template, " +
-					"every statement template placed in every block of every block-holding template, each template alone with filled/empty blocks; its last case demands that every node type of ast/stmt.go, ast/expr.go, ast/operator.go " +
+					"every statement template placed in every block of every block-holding template, each template alone with filled/empty blocks; " +
+					"every degenerate block content (one/two/many empty statements `;` `;;` `;\\n;`, newlines only, comments only, empty statements before/between/after real statements) as the whole program, " +
+					"around top-level statements, in every block hole of every block-holding template (one hole at a time and all at once), block-holding constructs with degenerate blocks nested in every block hole, " +
+					"function literals with degenerate bodies in every expression hole; its last case demands that every node type of ast/stmt.go, ast/expr.go, ast/operator.go " +
 					"and every child-holding field occurred (no-coverage:<type> otherwise). phase corpus: every script of the repository (tests, examples) that parses. " +
-					"phase gen: PRNG nesting of the same templates (depth<=4, 1-4 top-level statements). For every program: node set + parent relation by reflection (astx) versus the sequence " +
-					"astutil.Walk presents; then the callback fails at call k for every k (programs with <=64 calls) or a PRNG sample of k. " +
+					"phase gen: PRNG nesting of the same templates (depth<=4, 1-4 top-level statements; empty blocks are sometimes runs of empty statements/blank lines/comments, one statement list in six gets empty statements before/between/after its members). " +
+					"For every program: node set + parent relation by reflection (astx) versus the sequence " +
+					"astutil.Walk presents; a panic of Walk (walk-panic:<site>) and a callback argument that is nil, a typed nil pointer (presented-nil:<Type>) or no node value at all (presented-non-node:<Type>) are violations; " +
+					"after a Walk error or panic every statement of the program is judged again on its own; then the callback fails at call k for every k (programs with <=64 calls) or a PRNG sample of k. " +
 					"An evaluation is non-trivial when the program parsed to >=3 nodes; distinct = distinct source text. coverage_tags cell:<Type>@<Parent.Field> is the coverage matrix.",
 				Assumptions: []string{
 					"node identity is pointer identity; the node set is what reflection reaches from the root through fields of package ast (reflect.Value fields are not nodes)",
 					"nodes shared by several parents (x += e, x++) must be presented after at least one of their parents",
-					"extra values presented by Walk that are not nodes of the tree (fabricated CallExpr of an anonymous call) are allowed",
+					"extra values presented by Walk that are not nodes of the tree (fabricated CallExpr of an anonymous call) are allowed as long as they are well-formed nodes: non-nil pointers to statement/expression/operator structs of package ast",
+					"a nil interface or typed nil pointer handed to the callback is not a node (the statement speaks of presenting nodes of the tree), so it is reported; a field holding a typed nil pointer contributes no node to the reflected set",
+					"the empty program (nil tree, or a root that is a typed nil pointer) must be walked without error, panic or callback argument that is not a node",
 					"a wrapped callback error (errors.Is) counts as 'that error'",
 					"programs that do not parse are outside the domain",
 				},
